@@ -151,7 +151,7 @@ def tie_closed(ctx, lean):
     rng, nprng = ctx.rng('closed'), ctx.nprng('closed')
     bad = {'gaussian': None, 'uniform': None, 'const': None}
     stats_ = {'gaussian': [0, 0], 'uniform': [0, 0]}
-    for _ in range(40 * ctx.scale):
+    for _ in range(60 * ctx.scale):
         kind, X = tie_sample(rng, nprng)
         n = len(X)
         absmean = float(np.mean(np.abs(X)))
@@ -321,7 +321,7 @@ def tie_truncated(ctx, lean):
     import copulas.univariate.truncated_gaussian as tg
     rng, nprng = ctx.rng('trunc'), ctx.nprng('trunc')
     bad_s = bad_p = bad_c = None
-    for i in range(8 * ctx.scale):
+    for i in range(12 * ctx.scale):
         n = rng.choice([5, 20, 60, 150])
         X, lo, hi = trunc_data(rng, nprng, n)
         mode = ['both', 'min', 'max', 'none'][i % 4]
@@ -466,7 +466,7 @@ def tie_kde(ctx, lean):
                                     'model': plan}
         ctx.sample({'op': 'kde.plan', 'sample_size': size, 'plan': plan}, cap=6)
     # --- numbers
-    for i in range(10 * ctx.scale):
+    for i in range(24 * ctx.scale):
         n = rng.choice([8, 30, 100, 250])
         scale = lognu(rng, 1e-2, 1e2)
         loc = rng.uniform(-30, 30) * scale
@@ -648,33 +648,37 @@ def dkw_eval(family, p, X):
             'params': params, 'ctor': kw, 'model': m}
 
 
+def closed_oracle_one(ctx, X):
+    from copulas.univariate import GaussianUnivariate, UniformUnivariate
+    n = len(X)
+    mean = math.fsum(X) / n
+    std = math.sqrt(math.fsum((x - mean) ** 2 for x in X) / n)
+    absmean = math.fsum(abs(x) for x in X) / n
+    m = GaussianUnivariate()
+    m.fit(X)
+    inp = {'X': X.tolist()}
+    if not abs(float(m._params['loc']) - mean) <= 4 * n * U * absmean:
+        ctx.fail_input('GaussianUnivariate.fit', inp, {'loc': float(m._params['loc'])}, f'loc = sample mean = {mean!r}',
+                       'GaussianUnivariate.fit:loc-not-sample-mean')
+    if not abs(float(m._params['scale']) - std) <= 4 * n * U * std + 4 * U * absmean:
+        ctx.fail_input('GaussianUnivariate.fit', inp, {'scale': float(m._params['scale'])},
+                       f'scale = population standard deviation = {std!r}', 'GaussianUnivariate.fit:scale-not-population-std')
+    m = UniformUnivariate()
+    m.fit(X)
+    lo, hi = min(X.tolist()), max(X.tolist())
+    if not (float(m._params['loc']) == lo and float(m._params['scale']) == hi - lo):
+        ctx.fail_input('UniformUnivariate.fit', inp, vc.jsonable(m._params), f'loc = min = {lo!r}, scale = max - min = {hi - lo!r}',
+                       'UniformUnivariate.fit:not-min-and-range')
+    return 3
+
+
 def exact_oracles(ctx, deep, seed):
     """closed-form estimators / param maps / KDE density are EXACT: independent recomputation in Python."""
-    from copulas.univariate import GaussianUnivariate, UniformUnivariate
     rng, nprng = vc.rng_for(seed, 'C04', 'exact'), vc.np_rng(seed, 'C04', 'exact')
     checked = 0
     for _ in range(12 * (5 if deep else 1)):
         kind, X = tie_sample(rng, nprng, 300)
-        n = len(X)
-        mean = math.fsum(X) / n
-        std = math.sqrt(math.fsum((x - mean) ** 2 for x in X) / n)
-        absmean = math.fsum(abs(x) for x in X) / n
-        m = GaussianUnivariate()
-        m.fit(X)
-        checked += 2
-        inp = {'X': X.tolist()}
-        if not abs(float(m._params['loc']) - mean) <= 4 * n * U * absmean:
-            ctx.fail_input('GaussianUnivariate.fit', inp, {'loc': float(m._params['loc'])}, f'loc = sample mean = {mean!r}',
-                           'GaussianUnivariate.fit:loc-not-sample-mean')
-        if not abs(float(m._params['scale']) - std) <= 4 * n * U * std + 4 * U * absmean:
-            ctx.fail_input('GaussianUnivariate.fit', inp, {'scale': float(m._params['scale'])},
-                           f'scale = population standard deviation = {std!r}', 'GaussianUnivariate.fit:scale-not-population-std')
-        m = UniformUnivariate()
-        m.fit(X)
-        lo, hi = min(X.tolist()), max(X.tolist())
-        if not (float(m._params['loc']) == lo and float(m._params['scale']) == hi - lo):
-            ctx.fail_input('UniformUnivariate.fit', inp, vc.jsonable(m._params), f'loc = min = {lo!r}, scale = max - min = {hi - lo!r}',
-                           'UniformUnivariate.fit:not-min-and-range')
+        checked += closed_oracle_one(ctx, X)
     checked += mle_map_oracle(ctx, rng, nprng, deep)
     checked += kde_oracle(ctx, rng, nprng, deep)
     return checked
@@ -930,6 +934,8 @@ def replay(ctx, payload):
     before = len(ctx.failing)
     if cls.startswith('GaussianKDE.fit:') and 'X' in inp:
         kde_oracle_one(ctx, inp)
+    elif 'X' in inp and cls.split(':')[0] in ('GaussianUnivariate.fit', 'UniformUnivariate.fit'):
+        closed_oracle_one(ctx, np.asarray(inp['X'], dtype=float))
     else:
         search(ctx, True, seed=inp.get('seed', payload.get('seed', 0)))
     return any(f['class'] == cls for f in ctx.failing[before:])
